@@ -9,7 +9,7 @@
    stated in full and refuted before, and are proved at full strength now (the old witnesses stay as
    regression Examples and in corpus/C13.json). *)
 From Coq Require Import String Permutation Sorting.Sorted.
-From PDV Require Import lib.Base lib.C12_Order gen.Gen_C13 model.C13_Rules proof.C13_RulesProof proof.C13_UpdateProof proof.C13_HistoryProof model.C13_Paged proof.C13_PagedProof proof.C13_LockProof proof.C13_Skel.
+From PDV Require Import lib.Base lib.C12_Order gen.Gen_C13 model.C13_Rules proof.C13_RulesProof proof.C13_UpdateProof proof.C13_HistoryProof proof.C13_FrameProof model.C13_Paged proof.C13_PagedProof proof.C13_LockProof proof.C13_Skel.
 Local Open Scope list_scope.
 
 (* ---------- Part 1: the key-range index ---------- *)
@@ -135,6 +135,29 @@ Theorem C13_accepted_update_reload_equal :
     let st := run_state step init_state (ORestart mr :: ups) in
     forall m, st_live st = Some m -> reload_dump (st_store st) = Some (dump_of m).
 Proof. exact accepted_update_reload_equal_pf. Qed.
+
+(* an accepted update touches only what it names.  In every history that starts PD on an empty storage and
+   issues updates of any kind without storage faults: after an accepted update, every rule under a key the
+   update does not name is served as before (same rule object), and every served rule was served under
+   that key before or is one the update carries.  "Names" (`names_key`): the key of a rule the update
+   carries; a deleted key; for a prefix deletion the group and a prefix of the id; for the bundle
+   operations the group id, compared for EQUALITY (DeleteGroupBundle with regexp=false takes a plain id,
+   not a pattern: "dc" does not name "all-dc-east"); every key for a full replacement *)
+Theorem C13_accepted_update_touches_only_what_it_names :
+  forall mr ups u w st' o, forallb fault_free_update ups = true ->
+    let st := run_state step init_state (ORestart mr :: ups) in
+    step st (OUpdate u None w) = (st', o) -> o_res o = ROk ->
+    forall m m', st_live st = Some m -> st_live st' = Some m' ->
+      (forall g i, names_key u g i = false -> cver (m_conf m') (g, i) = cver (m_conf m) (g, i)) /\
+      (forall k r', rget k (c_rules (m_conf m')) = Some r' ->
+         cver (m_conf m) k = Some (r_ver r') \/ In (r_ver r') (map r_ver (rules_of_update u))).
+Proof. exact accepted_update_frame_pf. Qed.
+
+(* regression (seeded change C13-10): a plain id is matched literally and in full *)
+Example C13_delete_bundle_plain_id :
+  names_key (UDeleteBundle [100; 99]%N) [97; 108; 108; 45; 100; 99]%N [114; 49]%N = false /\
+  names_key (UDeleteBundle []%N) [112; 100]%N [100]%N = false.
+Proof. vm_compute. split; reflexivity. Qed.
 
 (* after a storage failure in the middle of an update, retrying the update converges: the retry ends in
    exactly the state (served configuration, index, storage) the update would have produced had its first
